@@ -15,7 +15,7 @@ def rules_for(prop):
         g = P(f, **kw)
         return g
     table = {
-        "C01": [ag.rule_ag1, ag.rule_ag2, ag.rule_ag3_small, scan.rule_sc1, tm.rule_tm4, st.rule_st5, seq.rule_fw2],
+        "C01": [ag.rule_ag1, ag.rule_ag2, ag.rule_ag3_small, scan.rule_sc1, scan.rule_sd2, tm.rule_tm4, st.rule_st5, seq.rule_fw2],
         "C02": st.RULES + [ms.rule_ms, tm.rule_tm5, scan.rule_sd1],
         "C03": mx.RULES,
         "C04": [named(grp.rule_eq1, files=("rxsci/operators/group_by.py", "rxsci/state/memory_store.py", "rxsci/state/store.py",
